@@ -132,6 +132,7 @@ fn run(ctx: &mut Ctx) {
             _ => 1_600_000_000 + rng.below(1000) as u32,
         };
         let mut full_budget = if i % 3 == 0 { 2 } else { 0 };
+        let daq_names = rng.below(4) == 0;
         let mut total_main = 0usize;
         let mut last_trg: Option<Vec<u8>> = None;
         let mut repeated_trg = 0u64;
@@ -230,6 +231,10 @@ fn run(ctx: &mut Ctx) {
                             }
                         }
                         3 => banks.push(("ATAT".into(), Trg::simple(ts, 1).encode())), // two TRG banks
+                        4 if rng.bool() => {
+                            // a zero-length bank that the library rejects (the scalers binary only looks at the TRG bank)
+                            banks.push((rng.pick(&["PC01", "C09A", "XXXX", "PC77", "C10V"]).to_string(), Vec::new()));
+                        }
                         _ => banks.push(("C09A".into(), rng.bytes(20))),      // malformed wire bank: vertices undecodable only
                     }
                 }
@@ -240,7 +245,10 @@ fn run(ctx: &mut Ctx) {
             let t1 = t0 + if rng.chance(0.3) { rng.below(600) } else { rng.below(50) } as u32;
             let ext = if rng.chance(0.4) { "mid.lz4" } else { "mid" };
             // file names deliberately do not sort like the timestamps
-            files.push(FileSpec { name: format!("run{:02}_{}.{}", (nfiles - k) * 7 % 10, k, ext), t0, t1, run: run_number, events });
+            // file names deliberately do not sort like the timestamps; one run in four uses DAQ-style names whose sub-run
+            // index disagrees with the time order (files copied from two directories, renamed by hand)
+            let name = if daq_names { format!("run{:05}sub{:03}.{}", 4321, (nfiles - k) * 7 % 10, ext) } else { format!("run{:02}_{}.{}", (nfiles - k) * 7 % 10, k, ext) };
+            files.push(FileSpec { name, t0, t1, run: run_number, events });
             t0 = t1 + rng.below(2) as u32; // next file starts within one second
             if t0 == files.last().unwrap().t0 {
                 t0 += 1;
